@@ -63,18 +63,9 @@ func TestC03(t *testing.T) {
 				return ""
 			}
 			if ans.Returned.Err != "" && strings.Contains(ans.Returned.Err, fallbackText) && len(m.Producible()) > 0 {
-				// The time-based fallback detector can misfire on a loaded machine (C09 / finding K6r): one
-				// such answer proves nothing. The same case run again (up to three times) tells a rare
-				// misfire from a run that cannot deliver its producible output.
-				for i := 0; i < 3; i++ {
-					again := RunCase(c.Request("run"))
-					if owner, _ := anomaly(again); owner != "" {
-						break
-					}
-					if again.Returned != nil && strings.Contains(again.Returned.Err, fallbackText) {
-						st.Record(c, true, append(c.Labels, "fallback-error-confirmed-by-rerun"))
-						return fmt.Sprintf("the run repeatedly ends with the fallback verdict %q although the reference says outputs %v are producible", short(again.Returned.Err, 120), m.Producible())
-					}
+				if again := fallbackRepeats(c); again != "" {
+					st.Record(c, true, append(c.Labels, "fallback-error-confirmed-by-rerun"))
+					return fmt.Sprintf("the run repeatedly ends with the fallback verdict %q although the reference says outputs %v are producible", short(again, 120), m.Producible())
 				}
 				st.ForeignAnomaly("C09")
 				return ""
